@@ -450,7 +450,11 @@ impl StrPair {
                         (&mut c[0..ends]).make_ascii_uppercase();
                         (&mut c[..=ends - 1]).make_ascii_lowercase();
                         (&mut c[0..=ends - 1]).make_ascii_uppercase();
-                        Ret::Text(format!("{:?} {} {:?}", flags, c.as_str(), v.as_str()))
+                        let json = {
+                            let _g = harness_scope();
+                            serde_json::to_string(v).unwrap_or_else(|e| format!("error {}", e))
+                        };
+                        Ret::Text(format!("{:?} {} {:?} {}", flags, c.as_str(), v.as_str(), json))
                     }};
                 }
                 (b_call(|| views!(&*b)), s_call(|| views!(&*s)))
